@@ -1050,6 +1050,7 @@ impl ASN1Value {
                         // }
                         // ```
                         // Cases like these need to be explicitly cast in the rust bindings.
+                        Self::reject_circular_value_reference(tlds, identifier)?;
                         *self = val.clone().value;
                         self.link_with_type(
                             tlds,
@@ -1439,6 +1440,7 @@ impl ASN1Value {
                 },
             ) => {
                 if let Some(ToplevelDefinition::Value(tld)) = tlds.get(identifier) {
+                    Self::reject_circular_value_reference(tlds, identifier)?;
                     *self = tld.value.clone();
                     self.link_with_type(tlds, ty, type_name)?;
                 }
@@ -1447,6 +1449,30 @@ impl ASN1Value {
             (_, ASN1Value::ElsewhereDeclaredValue { .. }) => Err(GrammarError::todo()),
             _ => Ok(()),
         }
+    }
+
+    /// A chain of value references that comes back to a name it has already visited
+    /// (`a T ::= b  b T ::= a`) denotes no value.
+    fn reject_circular_value_reference(
+        tlds: &BTreeMap<String, ToplevelDefinition>,
+        start: &String,
+    ) -> Result<(), GrammarError> {
+        let mut visited = vec![start];
+        while let Some(ToplevelDefinition::Value(ToplevelValueDefinition {
+            value: ASN1Value::ElsewhereDeclaredValue { identifier, .. },
+            ..
+        })) = visited.last().and_then(|current| tlds.get(*current))
+        {
+            if visited.contains(&identifier) {
+                return Err(grammar_error!(
+                    LinkerError,
+                    "Circular value reference through '{}'",
+                    identifier
+                ));
+            }
+            visited.push(identifier);
+        }
+        Ok(())
     }
 
     /// The ENUMERATED definition an enumeral belongs to: the governing type itself (by name,
